@@ -10,6 +10,7 @@ python corr/imgdoc.py <mode> <n documents> <seed>       (4 spellings per documen
   mode himg     ATX / Setext headings with images (probe)
   mode all      everything together: paragraphs with links or with images, headings with links
   mode mixall   links AND images in the same paragraph / ATX heading / Setext heading (`MixedDoc`)
+  mode brmix    as mixall, and hard breaks between the items of a paragraph (`MixedBrDoc`)
 
 The spellings have choices that are multiples of 5, so that `linkStyle` draws the inline style for every link and image;
 a printed source with `<` or with a reference definition is counted as `skipped`.
@@ -72,10 +73,18 @@ def brackets(xs):
     return any((x[0] == 'X' and x[1] in '[]') or (x[0] == 'C' and ('[' in x[1] or ']' in x[1])) for x in xs)
 
 
-def content(rng, g, link, img, need):
+def content(rng, g, link, img, need, br=0.0):
     for _ in range(500):
         c = mix_items(rng, g, rng.choice([1, 2, 2, 3, 4, 5]), link, img)
         if need and not any(x[0] in need for x in c): continue
+        if br:
+            out = []
+            for i, x in enumerate(c):
+                if i > 0 and rng.random() < br:
+                    out.append(('B',))
+                    if x[0] == 'T': x = ('T', x[1].lstrip(' ') or 'w')
+                out.append(x)
+            c = out
         return c
     return [('T', 'w')]
 
@@ -104,6 +113,11 @@ def gen_doc(rng, g, mode):
             elif k == 'a': b = ('a', rng.randint(1, 6), content(rng, g, 0, 0.4, 'I'))
             elif k == 's': b = ('s', rng.randint(1, 2), content(rng, g, 0, 0.4, 'I'))
             else: b = ('r',)
+        elif mode == 'brmix':
+            if k == 'p': b = ('p', content(rng, g, 0.25, 0.25, '', 0.35))
+            elif k == 'a': b = ('a', rng.randint(1, 6), content(rng, g, 0.25, 0.25, ''))
+            elif k == 's': b = ('s', rng.randint(1, 2), content(rng, g, 0.25, 0.25, ''))
+            else: b = ('r',)
         elif mode == 'mixall':
             if k == 'p': b = ('p', content(rng, g, 0.25, 0.25, ''))
             elif k == 'a': b = ('a', rng.randint(1, 6), content(rng, g, 0.25, 0.25, ''))
@@ -123,7 +137,10 @@ def first_link_ok(doc, heads):
     for b in doc:
         if b[0] == 'p' or (heads and b[0] in 'as'):
             c = b[1] if b[0] == 'p' else b[2]
-            if c[0][0] == 'L' and brackets(c[0][1]): return False
+            start = True
+            for x in c:     # a link that starts a line (the paragraph, or the line after a hard break)
+                if start and x[0] == 'L' and brackets(x[1]): return False
+                start = x[0] == 'B'
     return True
 
 
@@ -187,6 +204,51 @@ def run(driver, rng, n, mode='img', full=False, heads_first=False):
     out = {'cases': len(todo), 'distinct': len(seen), 'res': res, 'dis': dis}
     return out
 
+
+def lean_inl(x):
+    if x[0] == 'L':
+        t = 'none' if x[3] is None else '(some %s)' % N.lean_str(x[3])
+        return '.link [%s] %s %s' % (', '.join(lean_inl(y) for y in x[1]), N.lean_str(x[2]), t)
+    if x[0] == 'I':
+        t = 'none' if x[3] is None else '(some %s)' % N.lean_str(x[3])
+        return '.image %s %s %s' % (N.lean_str(x[1]), N.lean_str(x[2]), t)
+    if x[0] in 'EG':
+        return '.%s [%s]' % ('em' if x[0] == 'E' else 'strong', ', '.join(lean_inl(y) for y in x[1]))
+    if x[0] == 'B': return '.br'
+    return N.lean_inl(x)
+
+
+def lean_block(b):
+    inl = lambda c: '[' + ', '.join(lean_inl(y) for y in c) + ']'
+    if b[0] == 'p': return '.para ' + inl(b[1])
+    if b[0] == 'a': return '.atx %d %s' % (b[1], inl(b[2]))
+    if b[0] == 's': return '.setext %d %s' % (b[1], inl(b[2]))
+    return '.rule'
+
+
+PRED = {'brmix': 'MixedBrDoc', 'img': 'ImgDoc', 'imglink': 'MixedDoc', 'hlink': 'LinkHDoc', 'himg': 'LinkImgDoc', 'all': 'LinkImgDoc',
+        'mixall': 'MixedDoc'}
+
+if __name__ == '__main__' and sys.argv[1] == 'lean':
+    # python corr/imgdoc.py lean <mode> <n> <seed>: a Lean file that evaluates `WF`, the predicate of the mode and
+    # `inlineStyle` on generated documents and spellings: the generator and the predicates describe the same documents
+    mode, n, seed = sys.argv[2], int(sys.argv[3]), int(sys.argv[4])
+    rng = random.Random(seed)
+    g = D.Gen(rng, 4)
+    print('import MdVerif.Spec.DocFlat3\nopen MdVerif MdVerif.DocSpec\n')
+    i = 0
+    while i < n:
+        g.labels = set()
+        d = gen_doc(rng, g, mode)
+        if not first_link_ok(d, False): continue
+        print('def d%d : Doc := [%s]' % (i, ', '.join('(' + lean_block(b) + ')' for b in d)))
+        print('def s%d : Spelling := ⟨%s⟩' % (i, spelling(rng)))
+        i += 1
+    print('def docs : List (Doc × Spelling) := [' + ', '.join('(d%d, s%d)' % (i, i) for i in range(n)) + ']')
+    print('#eval (docs.length, (docs.filter (fun p => WF p.1)).length, '
+          '(docs.filter (fun p => WF p.1 && %s p.1)).length, '
+          '(docs.filter (fun p => WF p.1 && %s p.1 && inlineStyle p.1 p.2)).length)' % (PRED[mode], PRED[mode]))
+    sys.exit(0)
 
 if __name__ == '__main__':
     mode = sys.argv[1]
